@@ -185,5 +185,6 @@ pub fn rule_spaces(_tier: Tier) -> Vec<CfgSpace> {
             }
         }
     }));
+    v.push(super::gens::fir_calls_vs_entries_space());
     v
 }
